@@ -33,6 +33,7 @@ pub async fn run_line(line: &str) -> String {
     match op {
         "frag_seq" => ops_frag::frag_seq(&args),
         "frag_make" => ops_frag::frag_make(&args),
+        "dgram_hop" => ops_frag::dgram_hop(&args),
         "frag_rt" => ops_frag::frag_roundtrip(&args),
         "dispatch" => ops_dispatch::dispatch(&args).await,
         "reload_seq" => ops_dispatch::reload_seq(&args).await,
